@@ -46,6 +46,55 @@ def drive_programs(rec, programs, part, nparts):
     rec.data["ok"] = ok
 
 
+def drive_overlap(rec, quick):
+    """res and a are the same pointer with different strides (partly overlapping limb vectors): whatever the call writes,
+    a source limb that lies outside every output limb, and every cell that is neither, must keep its bytes"""
+    import numpy as np
+    from lib import Buf, FFT64, NTT120
+    import vecops
+    rng = random.Random(rec.seed * 17 + 3)
+    L = Lib.get()
+    events = []
+    for n in ([4, 16, 64] if quick else [2, 4, 8, 16, 64, 256, 1024]):
+        for mk, mt, mask in (("fft64", FFT64, MASK_NONE), ("fft64-generic", FFT64, MASK_GENERIC), ("ntt120", NTT120, MASK_NONE)):
+            mod = L.module(n, mt, mask)
+            L.set_cpu_mask(MASK_NONE)
+            for op in ("rotate", "automorphism", "copy", "negate"):
+                for size in (2, 3):
+                    for rsl, asl in ((n, 2 * n), (n + 1, 2 * n + 2), (2 * n, n), (n, n + 3), (n + 3, n)):
+                        words = (size - 1) * max(rsl, asl) + n
+                        B = Buf(8 * words, fill=0x4D)
+                        for j in range(size):
+                            B.i64[j * asl:j * asl + n] = vecops.role_data(rec.seed + 5, "a", j, n, 50)
+                        before = B.i64.copy()
+                        p = rng.choice([1, 3, n + 1, 2 * n - 1, 5])
+                        if not rec.progress("%s[%s] N=%d size=%d res==a res_sl=%d a_sl=%d" % (op, mk, n, size, rsl, asl)):
+                            continue
+                        vecops.call_op(L, mod, op, p, B, size, rsl, B, size, asl, B, 0, n)
+                        rec.case((op, mk, size, rsl < asl, rsl - n, asl - n))
+                        if not B.canaries_ok():
+                            rec.violation("%s[%s] N=%d size=%d res==a res_sl=%d a_sl=%d: write outside the vector" % (op, mk, n, size, rsl, asl), {})
+                            continue
+                        out = np.zeros(words, dtype=bool)
+                        for i in range(size):
+                            out[i * rsl:i * rsl + n] = True
+                        src = np.zeros(words, dtype=bool)
+                        changed = B.i64 != before
+                        objs = []
+                        for j in range(size):
+                            src[j * asl:j * asl + n] = True
+                            role = "res" if out[j * asl:j * asl + n].any() else "src"
+                            # a limb that an output limb overlaps only partly: the part outside the output is judged with the other cells
+                            objs.append(["a limb %d" % j, role, bool(changed[j * asl:j * asl + n][~out[j * asl:j * asl + n]].any()) if role == "src"
+                                         else bool(changed[j * asl:j * asl + n].any())])
+                        objs.append(["cells in no output limb", "other", bool(changed[~out].any())])
+                        events.append({"e": "Step", "op": "vec_znx_" + op, "objs": objs,
+                                       "_what": "%s[%s] N=%d size=%d res==a res_sl=%d a_sl=%d p=%d" % (op, mk, n, size, rsl, asl, p)})
+            L.delete_module(mod)
+    rec.data["events"] = events
+    rec.data["ok"] = len(events)
+
+
 def run(chk, replay=None):
     quick = chk.tier == "quick"
     Lib.get()
@@ -81,6 +130,9 @@ def run(chk, replay=None):
     tlc_must_pass(r, "Pointwise gen")
     d = isolated(chk, "pointwise kernels with operand snapshots", c13.drive_pw_a, (printed_json(r, "CASE"),), timeout=600)
     chk.traces += d["ok"] if d else 0
+    d = isolated(chk, "res == a with different strides (overlapping limb vectors)", drive_overlap, (quick,), timeout=900)
+    if d:
+        events += d["events"]
     # direction B
     clean = [{k: v for k, v in ev.items() if not k.startswith("_")} for ev in events]
     bad, results = validate_events("FrameTrace", "FrameTrace.cfg", clean, "c18", nproc=8, timeout=900)
